@@ -100,6 +100,7 @@ structure State where
   orphan : Nat → Bool               -- created with parent_thread=Null
   outcome : Nat → Option Outcome
   tillFired : Nat → Bool
+  lingerFired : Nat → Bool          -- the 60 s a finished thread waits for somebody to collect its result have passed
   nextId : Nat
   -- ghosts
   everChild : Nat → List Nat        -- every thread ever registered under p
@@ -107,7 +108,7 @@ structure State where
 def init : State :=
   { phase := fun t => if t = 0 then .running else .absent, call := fun _ => .idle .none, children := fun _ => [],
     parent := fun _ => 0, pstop := fun _ => false, stopped := fun _ => false, joiner := fun _ => false,
-    inAll := fun t => t = 0, allOrder := [0], orphan := fun _ => false, outcome := fun _ => none, tillFired := fun _ => false, nextId := 1, everChild := fun _ => [] }
+    inAll := fun t => t = 0, allOrder := [0], orphan := fun _ => false, outcome := fun _ => none, tillFired := fun _ => false, lingerFired := fun _ => false, nextId := 1, everChild := fun _ => [] }
 
 def upd {α : Type} (f : Nat → α) (t : Nat) (v : α) : Nat → α := fun u => if u = t then v else f u
 
@@ -133,6 +134,9 @@ def call (s : State) (t : Nat) (op : Op) : Option State :=
   | _, _ => none
 
 def fireTill (s : State) (x : Nat) : State := { s with tillFired := upd s.tillFired x true }
+
+/-- environment: sixty seconds have passed since thread `t` finished (its `Till(seconds=60)` fires) -/
+def expire (s : State) (t : Nat) : State := { s with lingerFired := upd s.lingerFired t true }
 
 /-- one step of a flattened stop() -/
 def stepStop (s : State) (t : Nat) (work : List SAct) (k : List SAct → Call) : Option (State × Label) :=
@@ -245,11 +249,19 @@ def step (s : State) (t : Nat) : Option (State × Label) :=
   | .fin4 cs => some ({ s with children := upd s.children t [], phase := upd s.phase t (.fin5 cs) }, .clear t)
   | .fin5 cs => some ({ s with inAll := upd s.inAll t false, allOrder := s.allOrder.erase t, phase := upd s.phase t (.fin6 cs) }, .allDel t)
   | .fin6 _ => some ({ s with stopped := upd s.stopped t true, phase := upd s.phase t .linger }, .fireStopped t)
-  | .linger => if s.joiner t then some ({ s with phase := upd s.phase t .dead }, .tau) else none
+  | .linger =>
+    if s.joiner t then some ({ s with phase := upd s.phase t .dead }, .tau)
+    else if s.lingerFired t then
+      -- :389-414 nobody came for the result: a failure is logged (and the method returns there); otherwise the thread
+      -- unregisters itself from a parent that is a Thread (not the main thread, not Null)
+      if s.outcome t = some .fail ∨ s.orphan t = true ∨ s.parent t = 0 then some ({ s with phase := upd s.phase t .dead }, .tau)
+      else some ({ s with children := upd s.children (s.parent t) ((s.children (s.parent t)).erase t), phase := upd s.phase t .dead },
+                 .unreg t (s.parent t) ((s.children (s.parent t)).contains t))
+    else none
 
 def sys : Sys State Label where
   init s := s = init
-  env s s' := (∃ t op, call s t op = some s') ∨ (∃ x, s' = fireTill s x)
+  env s s' := (∃ t op, call s t op = some s') ∨ (∃ x, s' = fireTill s x) ∨ (∃ t, s' = expire s t)
   step := step
 
 end MoThreads.ThreadTree
